@@ -335,21 +335,19 @@ func (w *world) drain() {
 	if w.release != nil {
 		w.release()
 	}
-	if w.pend1 != nil {
-		<-w.pend1
-	}
 	if w.release2 != nil {
 		w.release2()
 	}
-	if w.pend2 != nil {
-		select {
-		case <-w.pend2:
-		case <-w.parked2:
-			w.release2()
-			<-w.pend2
+	w.fkv.Disarm()
+	for _, ch := range []chan string{w.pend2, w.pend1} {
+		if ch != nil {
+			select {
+			case <-ch:
+			case <-time.After(30 * time.Second):
+				panic("drain: an operation did not return")
+			}
 		}
 	}
-	w.fkv.Disarm()
 	w.gated, w.pend1, w.pend2, w.release, w.release2, w.parked2 = false, nil, nil, nil, nil, nil
 }
 
@@ -358,8 +356,9 @@ func (w *world) drain() {
 //               an op that issues no store write simply completes
 //   <op>        while an op is parked: started in a second goroutine; "blocked" if it has not returned after
 //               200 ms (it waits for the cluster lock), otherwise its result
-//   release     lets the parked write go on; answers "<res1>", "<res1> <res2>" or - when the second op reaches a
-//               store write of its own - "<res1> parked"; a further release then answers "<res2>"
+//   release     lets the parked write go on; answers "<res1>" (no second op), "<res1> <res2>", or - when the second op
+//               reaches a store write of its own, which is held too - "parked"; a further release then answers
+//               "<res1> <res2>"
 // During a schedule the write log is cumulative and masks are ignored (must be 0).
 func (w *world) sched(op string) (string, bool) {
 	f := strings.Fields(op)
@@ -390,33 +389,47 @@ func (w *world) sched(op string) (string, bool) {
 			panic("park: neither parked nor done")
 		}
 	case len(f) == 1 && f[0] == "release":
+		wait := func(ch chan string) string {
+			select {
+			case r := <-ch:
+				return r
+			case <-time.After(30 * time.Second):
+				panic("release: an operation did not return")
+			}
+		}
 		switch {
-		case w.pend1 != nil:
+		case w.pend1 != nil && w.release != nil:
+			// first release: let the parked write of op 1 go on
 			if w.pend2 != nil {
 				w.parked2, w.release2 = w.fkv.ArmPark(w.gid1)
 			}
 			w.release()
-			r1 := <-w.pend1
-			w.pend1, w.release = nil, nil
+			w.release = nil
 			if w.pend2 == nil {
-				w.gated = false
+				r1 := wait(w.pend1)
+				w.pend1, w.gated = nil, false
 				return r1, true
 			}
 			select {
 			case r2 := <-w.pend2:
+				// op 2 finished without a store write of its own
 				w.fkv.Disarm()
-				w.pend2, w.release2, w.parked2, w.gated = nil, nil, nil, false
+				r1 := wait(w.pend1)
+				w.pend1, w.pend2, w.release2, w.parked2, w.gated = nil, nil, nil, nil, false
 				return r1 + " " + r2, true
 			case <-w.parked2:
-				return r1 + " parked", true
+				// op 2 holds the lock at its own write; op 1 may still be in an unlocked or read-locked tail
+				// (cluster-version bump, store limit, replication status), so its result is collected later
+				return "parked", true
 			case <-time.After(30 * time.Second):
 				panic("release: second op neither parked nor done")
 			}
-		case w.pend2 != nil:
+		case w.pend2 != nil && w.release2 != nil && w.release == nil:
 			w.release2()
-			r2 := <-w.pend2
-			w.pend2, w.release2, w.parked2, w.gated = nil, nil, nil, false
-			return r2, true
+			r2 := wait(w.pend2)
+			r1 := wait(w.pend1)
+			w.pend1, w.pend2, w.release2, w.parked2, w.gated = nil, nil, nil, nil, false
+			return r1 + " " + r2, true
 		}
 		return "bad-op", true
 	case w.gated && len(f) > 0 && f[0] != "reset":
